@@ -146,7 +146,12 @@ func main() {
 		fmt.Fprintln(os.Stderr, err)
 		os.Exit(1)
 	}
-	rendered := strings.Replace(a.render(), "\nend Generated\n", renderEffects(files)+"\nend Generated\n", 1)
+	codec, err := renderCodecFacts(*repo)
+	if err != nil {
+		fmt.Fprintln(os.Stderr, "codec facts:", err)
+		os.Exit(1)
+	}
+	rendered := strings.Replace(a.render(), "\nend Generated\n", renderEffects(files)+codec+"\nend Generated\n", 1)
 	if err := os.WriteFile(*out, []byte(rendered), 0o644); err != nil {
 		fmt.Fprintln(os.Stderr, err)
 		os.Exit(1)
